@@ -24,6 +24,14 @@ def step_cases(rng, tier):
         l = cases.set_steps(l, rng.choice([1, 2, 3]))
         lines.append(l)
         meta[cid] = ("step", "IM=%s irq=%s len=%d" % (kv["IM"], kind, len(data)))
+    # every encoding of every table (implemented or not) once with NO device attached and once with one: an I/O handler that
+    # forgets the nil check, an unsupported opcode that is not consumed
+    for j, e in enumerate(encs):
+        for io in (0, 1):
+            cid = "y%d_%d" % (j, io)
+            l = cases.make_case(rng, cid, e, io=io)
+            lines.append(cases.set_steps(l, 1))
+            meta[cid] = ("sweep", "io=%d" % io)
     return lines, meta
 
 def fuzz(go_bin, seed, n, only=None):
